@@ -269,6 +269,15 @@ def _emit_fn(g, source, a, blocks, vacuity):
     sigtext = rewrite_sig(it.sig_text, rules, a.get("ret"))
     if a.get("sig_from"):      # R8-style declared receiver changes: `sig_replace="&self=>&mut self"`
         pass
+    # R4b: `Self::Assoc` in a trait-impl method signature is replaced by the `type Assoc = ..;` of that impl
+    for m in set(re.findall(r"\bSelf::([A-Z]\w*)", sigtext)):
+        parent = "/".join(f.item.split("/")[:-1]).strip()
+        if parent:
+            pit = source(f.file).find(parent)
+            mm = re.search(r"\btype\s+%s\s*=\s*([^;]+);" % m, pit.body_text)
+            if mm:
+                sigtext = re.sub(r"\bSelf::%s\b" % m, mm.group(1).strip(), sigtext)
+                rules.append(("R4b", f"Self::{m} -> {mm.group(1).strip()}"))
     for rep in (a.get("sig_replace") or "").split(";;"):
         if rep:
             old, new = rep.split("=>")
@@ -278,6 +287,21 @@ def _emit_fn(g, source, a, blocks, vacuity):
             rules.append(("R8", f"signature: {old.strip()} -> {new.strip()}"))
     body = rewrite_body(it.body_text, rules, intended_panics=bool(a.get("intended_panics")))
     body = apply_r9(body, rules)
+    if a.get("alias_this"):
+        # R4c: with R4 the receiver already is `&mut self`; `let this = self.as_mut().get_mut();` (or `self.get_mut()`)
+        # only re-borrows it.  The statement is dropped and the alias `this` is renamed to `self`.
+        done = False
+        for pat in ("let this = self.as_mut().get_mut();", "let this = self.get_mut();"):
+            try:
+                body = replace_pattern(body, pat, "", f.name, 1)
+                done = True
+                rules.append(("R4c", f"`{pat}` dropped; alias `this` renamed to `self`"))
+                break
+            except ExtractError:
+                continue
+        if not done:
+            raise ExtractError(f"anchor lost: `let this = self.as_mut().get_mut();` in {f.name}")
+        body = "".join(("self" if (t.kind == "ident" and t.text == "this") else t.text) for t in tokenize(body))
     for ra in blocks["replaces"]:
         rep = "\n".join(ra["text"]).strip("\n")
         body = replace_pattern(body, ra["pattern"], rep, f.name, int(ra.get("count", 1)))
